@@ -150,18 +150,10 @@ fn write_db(c: &Case) -> LoggingBackend {
 /// Logical content of an image: every table name with its entries (for the known table
 /// types) — read from a private copy, so that looking does not disturb the original.
 fn dump(image: &[u8]) -> Result<BTreeMap<String, Vec<String>>, String> {
-    let t0 = std::time::Instant::now();
-    let be = LoggingBackend::from_image(image.to_vec(), std::env::var("C23_PROFILE").is_ok());
-    let db = redb::Database::builder().create_with_backend(be.clone()).map_err(|e| e.to_string())?;
-    let t1 = t0.elapsed();
-    if std::env::var("C23_PROFILE").is_ok() {
-        eprintln!("  dump open log: {:?}", be.log().iter().map(|r| r.describe()).collect::<Vec<_>>());
-    }
+    let be = LoggingBackend::from_image(image.to_vec(), false);
+    let db = redb::Database::builder().create_with_backend(be).map_err(|e| e.to_string())?;
     let tx = db.begin_read().map_err(|e| e.to_string())?;
     let mut out = BTreeMap::new();
-    struct D(std::time::Instant, std::time::Duration);
-    impl Drop for D { fn drop(&mut self) { if std::env::var("C23_PROFILE").is_ok() { eprintln!("  dump: open {:?} total-before-drop {:?}", self.1, self.0.elapsed()); } } }
-    let _d = D(t0, t1);
     let names: Vec<String> = tx
         .list_tables()
         .map_err(|e| e.to_string())?
@@ -236,17 +228,11 @@ fn eval(c: &Case, rep: &mut Report) {
     let nontrivial = c.stored != 0 || c.sampled != 0;
     let vname = if c.version == 0 { "absent".to_string() } else { format!("v{}", c.version) };
 
-    let t0 = std::time::Instant::now();
     let be = write_db(c);
-    let t1 = t0.elapsed();
     let before = be.image();
     let before_dump = dump(&before);
-    let t2 = t0.elapsed();
 
     let first = guard(|| open_and_read(&be));
-    if std::env::var("C23_PROFILE").is_ok() {
-        eprintln!("write_db {:?} dump {:?} open {:?}", t1, t2 - t1, t0.elapsed() - t2);
-    }
     let first = match first {
         Err(p) => {
             rep.case(key, &format!("{vname}:panic"), nontrivial);
@@ -340,6 +326,7 @@ fn eval(c: &Case, rep: &mut Report) {
 }
 
 fn main() {
+    tune_malloc();
     let ctx = Ctx::from_args("C23");
     let n: u32 = std::env::var("C23_N").ok().and_then(|s| s.parse().ok()).unwrap_or(ctx.tier.pick(6, 7));
     let rep = if let Some(c) = ctx.replay_case() {
